@@ -15,9 +15,13 @@ package main
 import (
 	"encoding/json"
 	"fmt"
+	goast "go/ast"
+	goparser "go/parser"
+	"go/token"
 	"os"
 	"path/filepath"
 	"regexp"
+	"sort"
 	"strings"
 )
 
@@ -26,6 +30,7 @@ const repo = "/repo"
 type status struct {
 	OrderedRanges []string `json:"ordered_ranges"`
 	SyncShim      []string `json:"sync_shim_files"`
+	Roots         []string `json:"package_roots"`
 	Missing       []string `json:"missing"`
 }
 
@@ -118,14 +123,54 @@ func verifKeys[T any](m map[string]T, site int) []string {
 		return nil
 	})
 
-	// ---- 3. package roots: pool accessors
-	roots := []struct{ dir, pkg, body string }{
-		{"pkg/parser", "parser", "func VerifParserPool() *sync.Pool { return &parserPool }\n"},
-		{"pkg/engine/runtime", "runtime", "func VerifCtxPool() *sync.Pool { return &ctxPool }\n"},
-		{"pkg/inimpl/guancecloud/input", "input", "func VerifPointPool() *sync.Pool { return &pointPool }\nfunc VerifMetaPool() *sync.Pool { return &metaPool }\n"},
+	// ---- 3. package roots: addresses of all package-level variables + typed pool accessors
+	extra := map[string]string{
+		"pkg/parser":                   "func VerifParserPool() *sync.Pool { return &parserPool }\n",
+		"pkg/engine/runtime":           "func VerifCtxPool() *sync.Pool { return &ctxPool }\n",
+		"pkg/inimpl/guancecloud/input": "func VerifPointPool() *sync.Pool { return &pointPool }\nfunc VerifMetaPool() *sync.Pool { return &metaPool }\n",
 	}
-	for _, r := range roots {
-		put(filepath.Join(repo, r.dir, "verif_roots.go"), fmt.Sprintf("//go:build verif\n\npackage %s\n\nimport sync \"github.com/GuanceCloud/platypus/pkg/verifsync\"\n\n%s", r.pkg, r.body))
+	pkgDirs := []string{"pkg/ast", "pkg/token", "pkg/errchain", "pkg/parser", "pkg/engine", "pkg/engine/runtime", "pkg/engine/runtimev2", "pkg/inimpl/guancecloud/funcs", "pkg/inimpl/guancecloud/input"}
+	for _, dir := range pkgDirs {
+		fset := token.NewFileSet()
+		pkgs, err := goparser.ParseDir(fset, filepath.Join(repo, dir), func(fi os.FileInfo) bool { return !strings.HasSuffix(fi.Name(), "_test.go") }, 0)
+		if err != nil {
+			st.Missing = append(st.Missing, "roots:"+dir)
+			continue
+		}
+		for pname, pkg := range pkgs {
+			if strings.HasSuffix(pname, "_test") {
+				continue
+			}
+			var names []string
+			for _, f := range pkg.Files {
+				for _, d := range f.Decls {
+					gd, ok := d.(*goast.GenDecl)
+					if !ok || gd.Tok != token.VAR {
+						continue
+					}
+					for _, sp := range gd.Specs {
+						for _, n := range sp.(*goast.ValueSpec).Names {
+							if n.Name != "_" {
+								names = append(names, n.Name)
+							}
+						}
+					}
+				}
+			}
+			sort.Strings(names)
+			var b strings.Builder
+			fmt.Fprintf(&b, "//go:build verif\n\npackage %s\n\n", pname)
+			if ex, ok := extra[dir]; ok {
+				b.WriteString("import sync \"github.com/GuanceCloud/platypus/pkg/verifsync\"\n\n" + ex + "\n")
+			}
+			b.WriteString("// VerifRoots returns the address of every package-level variable.\nfunc VerifRoots() map[string]any {\n\treturn map[string]any{\n")
+			for _, n := range names {
+				fmt.Fprintf(&b, "\t\t%q: &%s,\n", dir+"."+n, n)
+			}
+			b.WriteString("\t}\n}\n")
+			put(filepath.Join(repo, dir, "verif_roots.go"), b.String())
+			st.Roots = append(st.Roots, fmt.Sprintf("%s:%d", dir, len(names)))
+		}
 	}
 
 	raw, _ := json.MarshalIndent(map[string]any{"Replace": replace}, "", " ")
@@ -147,22 +192,100 @@ func must(err error) {
 const shimSource = `// Package verifsync replaces "sync" in instrumented builds (never shipped).
 package verifsync
 
-import "sync"
+import (
+	"runtime"
+	"sync"
+	"sync/atomic"
+)
 
 type (
-	Mutex     = sync.Mutex
-	RWMutex   = sync.RWMutex
-	Once      = sync.Once
 	WaitGroup = sync.WaitGroup
 	Map       = sync.Map
 	Cond      = sync.Cond
 	Locker    = sync.Locker
 )
 
+// SyncOps counts lock / once operations (a segment that performed one is
+// exempt from the shared-write invariant: the write is synchronised).
+var SyncOps int64
+
+func blocked(label string) {
+	if Hooks.Blocked != nil {
+		Hooks.Blocked(label)
+	} else {
+		runtime.Gosched()
+	}
+}
+
+// Mutex wraps sync.Mutex: Lock is a scheduling point and never blocks the
+// cooperative scheduler.
+type Mutex struct{ m sync.Mutex }
+
+func (m *Mutex) Lock() {
+	atomic.AddInt64(&SyncOps, 1)
+	if Hooks.Point != nil {
+		Hooks.Point("lock", nil)
+	}
+	for !m.m.TryLock() {
+		blocked("mutex")
+	}
+}
+func (m *Mutex) Unlock()       { m.m.Unlock() }
+func (m *Mutex) TryLock() bool { atomic.AddInt64(&SyncOps, 1); return m.m.TryLock() }
+
+type RWMutex struct{ m sync.RWMutex }
+
+func (m *RWMutex) Lock() {
+	atomic.AddInt64(&SyncOps, 1)
+	if Hooks.Point != nil {
+		Hooks.Point("lock", nil)
+	}
+	for !m.m.TryLock() {
+		blocked("rwmutex")
+	}
+}
+func (m *RWMutex) Unlock() { m.m.Unlock() }
+func (m *RWMutex) RLock() {
+	atomic.AddInt64(&SyncOps, 1)
+	if Hooks.Point != nil {
+		Hooks.Point("rlock", nil)
+	}
+	for !m.m.TryRLock() {
+		blocked("rwmutex-r")
+	}
+}
+func (m *RWMutex) RUnlock()        { m.m.RUnlock() }
+func (m *RWMutex) TryLock() bool   { atomic.AddInt64(&SyncOps, 1); return m.m.TryLock() }
+func (m *RWMutex) TryRLock() bool  { atomic.AddInt64(&SyncOps, 1); return m.m.TryRLock() }
+func (m *RWMutex) RLocker() Locker { return (*rlocker)(m) }
+
+type rlocker RWMutex
+
+func (r *rlocker) Lock()   { (*RWMutex)(r).RLock() }
+func (r *rlocker) Unlock() { (*RWMutex)(r).RUnlock() }
+
+// Once wraps sync.Once; Do counts as a synchronisation operation.
+type Once struct {
+	mu   Mutex
+	done bool
+}
+
+func (o *Once) Do(f func()) {
+	atomic.AddInt64(&SyncOps, 1)
+	o.mu.Lock()
+	defer o.mu.Unlock()
+	if !o.done {
+		defer func() { o.done = true }()
+		f()
+	}
+}
+
 // Hooks are installed by the harness. All are optional.
 var Hooks struct {
-	// Point is called before every pool operation (a scheduling point).
+	// Point is called before every pool / lock operation (a scheduling point).
 	Point func(op string, p *Pool)
+	// Blocked is called while a lock is held by somebody else.
+	Blocked func(label string)
 	// Choose picks the answer of a Get: an index into the pooled objects
 	// (0 = oldest ... n-1 = most recently put) or n for "call New".
 	Choose func(p *Pool, n int) int
